@@ -5,6 +5,8 @@
 package account
 
 import (
+	"bytes"
+
 	"github.com/33cn/chain33/client"
 	"github.com/33cn/chain33/common/address"
 	"github.com/33cn/chain33/types"
@@ -61,6 +63,11 @@ func (acc *DB) execAccountKey(addr, execaddr string) (key []byte) {
 	key = append(key, []byte(":")...)
 	key = append(key, address.FormatAddrKey(addr)...)
 	return key
+}
+
+// isSameAddr 判断两个地址是否对应同一个账户存储记录(eth地址大小写不同但key相同)
+func isSameAddr(a, b string) bool {
+	return a == b || bytes.Equal(address.FormatAddrKey(a), address.FormatAddrKey(b))
 }
 
 // TransferToExec transfer coins from address to exec address
@@ -148,7 +155,7 @@ func (acc *DB) ExecActive(addr, execaddr string, amount int64) (*types.Receipt, 
 
 // ExecTransfer 执行转帐
 func (acc *DB) ExecTransfer(from, to, execaddr string, amount int64) (*types.Receipt, error) {
-	if from == to {
+	if isSameAddr(from, to) {
 		return nil, types.ErrSendSameToRecv
 	}
 	if !acc.CheckAmount(amount) {
@@ -184,7 +191,7 @@ func (acc *DB) ExecTransfer(from, to, execaddr string, amount int64) (*types.Rec
 
 // ExecTransferFrozen 从自己冻结的钱里面扣除，转移到别人的活动钱包里面去
 func (acc *DB) ExecTransferFrozen(from, to, execaddr string, amount int64) (*types.Receipt, error) {
-	if from == to {
+	if isSameAddr(from, to) {
 		return nil, types.ErrSendSameToRecv
 	}
 	if !acc.CheckAmount(amount) {
